@@ -8,6 +8,7 @@ import J5V.Walker.Stub
 import J5V.Walker.Dump
 import J5V.Walker.Print
 import J5V.Walker.PrintErase
+import J5V.Walker.PrintText
 import J5V.Compile.Sexp
 /-! Line-protocol driver for the schema-driven BCL walker model (core only); protocol:
 `harness/PROTOCOL-walker.md`.
@@ -18,13 +19,14 @@ decode the source (`decodeRunes`), `parseFile cls runes true` (`.errors` → `pe
 `WALKER_DEBUG=1` appends the model's error site / panic reason to `err` / `panic` lines.
 
 `print HEX(filename) HEX(source) SEXP` (PROTOCOL-walker.md §8; SEXP = one `(j5s …)` file of
-PROTOCOL-compile.md §2 with its `(decl …)`) → `unsupported` | `tree=<t> walk=<w> msg=<m> same=<s>`:
+PROTOCOL-compile.md §2 with its `(decl …)`) → `unsupported` | `tree=<t> walk=<w> msg=<m> same=<s> text=<x>`:
 `t` = the model's parse of the source, positions erased, IS `toBcl ast` (compared through the
 canonical rendering of `Driver/Bcl.lean`, copied below); `w` = the protocol result of
 `walkSchema j5Env (toBcl ast) (stub j5Env filename)` with `:` for the space; `m` = `dump j5Env (toMsg
 filename ast)`; `s` = the walk is `ok` and its tree EQUALS `toMsg filename ast` (`nodeBeq`: the reflection
 layer's touched flags included; this implies equal dumps, and both dumps are on the line). With
-`WALKER_PRINT_DUMPONLY=1` only the dumps are compared (development). -/
+`WALKER_PRINT_DUMPONLY=1` only the dumps are compared (development). `x` = the UTF-8 bytes of the model's
+text `printJ5s ast` (`J5V/Walker/PrintText.lean`) ARE the source bytes of the op. -/
 open J5V.Go J5V.Bcl J5V.Walker
 
 def pt (p : Pos) : String := toString p.line ++ ":" ++ toString p.col
@@ -116,7 +118,8 @@ def opPrint (cls : Cls) (debug exact : Bool) (filename source : List Nat) (ast :
         ("ok:" ++ d, if d == m && (!exact || nodeBeq t msg) then "1" else "0")
       | .err e => ("err:" ++ posStr e.pos ++ (if debug then ":" ++ e.what.replace " " "_" else ""), "0")
       | .panic why => ("panic" ++ (if debug then ":" ++ why.replace " " "_" else ""), "0")
-    "tree=" ++ tree ++ " walk=" ++ w ++ " msg=" ++ m ++ " same=" ++ same
+    let text := if encodeRunes (printJ5s ast) == source then "1" else "0"
+    "tree=" ++ tree ++ " walk=" ++ w ++ " msg=" ++ m ++ " same=" ++ same ++ " text=" ++ text
 
 /-- `print HEX HEX SEXP…`: the s-expression is the rest of the line -/
 def stepPrint (cls : Cls) (debug exact : Bool) (rest : String) : String :=
